@@ -95,6 +95,27 @@ CHECKS["C10"] = dict(
     note="Trusted: as C09. The row invariant across Rollback is covered by the bucket-dump correspondence, not proved; the consensus side is a transcription of mass-core's calcSequenceLock/SequenceLockActive; legal frozen periods (>= 61440) are not mined, small periods are written directly into scripts. Coinbase deposit maturity repaired (91b07dd).",
     technique="Coq proof (row exactness, sequence-lock equivalence) + extracted-model differential correspondence incl. built withdrawal transactions",
 )
+CHECKS["C03"] = dict(
+    category="proof",
+    text="Coq model of the keystore unlock state machine and of per-input signing over an abstract signature scheme, sighash and script engine (section hypotheses): with the right passphrase and any of the six flags signing succeeds in EVERY reachable unlock state, changes only witnesses, every input passes the engine and the manager ends locked; any other passphrase yields the passphrase error, uses no key, returns no material and leaves the state unchanged; witnesses for the repaired pending-input panic and for the known SINGLE finding. Tied to the code by ~4500 sign/export/reveal/check steps per quick run on real wallets with confirmed and pending standard/staking/binding coins, each result compared with the extracted model and independently re-verified (recomputed sighash + btcec verification + a fresh mass-core script engine per input).",
+    design_ref="DESIGN.md section 5, C03",
+    note="Trusted: Coq kernel (no axioms), ExtrOcamlBasic + driver, harness (sim/simx/hist), verif accessors of the unlock state; ECDSA, sighash, script engine, scrypt are law-hypotheses/primitives of mass-core, btcec, x/crypto. Concurrency (SignRawTx takes no manager lock) is out of scope. Known finding sighash-single-input-without-output; four defects repaired (6d649d4, 34102a8, a56f4eb, 30c1bd3).",
+    technique="Coq proof (state-machine invariants over all reachable unlock states, frame property) + extracted-model differential correspondence + independent cryptographic re-verification",
+)
+CHECKS["C04"] = dict(
+    category="proof",
+    text="Coq theorems on top of the C13/C14 models: the wallet id and every address are functions of (mnemonic words however spaced, passphrase, network) across create, keystore export/import, reload and public-passphrase change; the three derivation routes (issuing while locked, import, signing) agree and the signing key's public key is the one the address commits to (from the group homomorphism law). Tied to the code by cross-instance runs on real wallets (all five entropy sizes, create -> addresses of both classes -> export -> second instance import -> restart -> public passphrase change -> mnemonic import with hints) comparing ids, ordered address lists and a verified signature per issued address with an independent BIP-39/BIP-32 derivation.",
+    design_ref="DESIGN.md section 5, C04",
+    note="Trusted: as C03 plus harness/internal/bipref (independent derivation on crypto/hmac, sha512, btcec). No canonical-spacing hypothesis since the NewSeed repair (f149051); paths meeting a short parent scalar (C14 known finding) are compared across instances only; persistence model covers entropy/seed/public-row round trips, not every record.",
+    technique="Coq proof (determinism of derivation, public/private commutation) + cross-instance correspondence with an independent reference derivation",
+)
+CHECKS["C05"] = dict(
+    category="proof",
+    text="Symbolic (Dolev-Yao style) Coq proof that after any history of create/address/sign/refused attempts/export/imports/public-passphrase change/restart/remove no secret is derivable from every row ever written, every export, error and signature plus the public passphrases; the passphrase gate (sign, export, reveal, removal succeed exactly with the right passphrase) and the refusal frame (a refused attempt changes neither store nor unlock state nor caches) hold in every reachable state; witnesses for three repaired defects. Tied to the code by histories on real wallets after each step of which the raw LevelDB files, exported JSON and every error string are scanned for every secret in every encoding (raw, hex, base58 xprv, mnemonic windows, passphrases) and the stored record shapes are compared with the model.",
+    design_ref="DESIGN.md section 5, C05",
+    note="Trusted: as C03. Symbolic model: curve relations and real cryptographic strength are outside the free algebra; random crypto keys unknown to the harness are covered by the proof only; zeroing of Go heap copies cannot be exhibited by any model. Three defects repaired (34102a8, a56f4eb, 30c1bd3).",
+    technique="Coq proof (symbolic secrecy invariant over histories, gate and frame over reachable states) + raw-storage taint scan and record-shape correspondence",
+)
 NOT_YET = "not claimed yet in this round: model and correspondence under construction (see DESIGN.md section 9 for the order)"
 
 def main():
